@@ -3,7 +3,9 @@ pub mod op;
 pub mod hmap;
 pub mod lang;
 pub mod builtin;
+pub mod pcapop;
 pub mod symtab;
+pub mod pkt;
 
 /// One operation per line: `<op> <args…>`; the result is one line of canonical text.
 pub fn dispatch(line: &str) -> String {
@@ -23,7 +25,10 @@ pub fn dispatch(line: &str) -> String {
         "vmrun" => lang::vmrun(rest),
         "core" => lang::core(rest),
         "builtin" => builtin::run(rest),
+        "pcap" => pcapop::run(rest),
         "symtab" => symtab::run(rest),
+        "pkt" => pkt::run(rest),
+        "addr" => pkt::addr(rest),
         _ => format!("bad-op {}", op),
     }
 }
